@@ -129,6 +129,27 @@ def run_in_environment(modname, funcname, payload, flags=(), env=None, home_file
         shutil.rmtree(root, ignore_errors=True)
 
 
+def discover_environment_reads(modname, funcname, payload):
+    """The names of the environment variables that the library's own source files look up while `modname.funcname(payload)` runs
+    (in an interpreter of its own). -> sorted list of names"""
+    import tempfile
+
+    fd, path = tempfile.mkstemp(prefix="environ-reads-", suffix=".json", dir=scratch_dir())
+    os.close(fd)
+    try:
+        acc, err = run_in_environment(modname, funcname, payload, env={"VERIF_RECORD_ENVIRON": path})
+        if acc is None:
+            raise HarnessError(f"environment probe failed: {err}")
+        with open(path) as f:
+            txt = f.read()
+        return json.loads(txt) if txt.strip() else []
+    finally:
+        try:
+            os.remove(path)
+        except OSError:
+            pass
+
+
 # interpreter environments a check may re-run a reduced case list in (the state of the world around the call is part of the input)
 def _user_units_config():
     """A user configuration: the working tree's defaults plus exact unit entries for variables that an earlier wildcard
@@ -168,9 +189,19 @@ ENVIRONMENTS = {
 }
 
 
+def environment_spec(envname):
+    """The named environment, or NAME=value for an environment variable found by discover_environment_reads()."""
+    if envname in ENVIRONMENTS:
+        return ENVIRONMENTS[envname]
+    name, eq, value = envname.partition("=")
+    if eq and name.replace("_", "a").isalnum():
+        return {"env": {name: value}}
+    raise KeyError(envname)
+
+
 def environment_acc(modname, funcname, payload, envname):
     """Run a worker in the named environment; violations are tagged with it so that a replay happens there too."""
-    spec = ENVIRONMENTS[envname]
+    spec = environment_spec(envname)
     hf = spec.get("home_files")
     acc, err = run_in_environment(modname, funcname, dict(payload, environment=envname, shard=0, nshards=1), flags=spec.get("flags", ()), env=spec.get("env"),
                                   home_files=hf() if callable(hf) else hf)
@@ -228,7 +259,7 @@ class EnvironmentRuns:
 def replay_in_environment(modname, case):
     """replay_sigs of a case recorded in a named environment"""
     envname = case["environment"]
-    spec = ENVIRONMENTS[envname]
+    spec = environment_spec(envname)
     inner = {k: v for k, v in case.items() if k != "environment"}
     hf = spec.get("home_files")
     acc, err = run_in_environment(modname, "environment_replay", {"case": inner, "environment": envname}, flags=spec.get("flags", ()), env=spec.get("env"),
